@@ -125,8 +125,24 @@ class Ctx:
             self.broken_obligations.append(f"translator {getattr(fn, '__module__', '?')}: {e!r}")
             self.proof_log += traceback.format_exc()
 
+    def _translate_all(self) -> None:
+        import importlib
+        import pkgutil
+
+        import translate
+
+        with LakeLock():
+            for m in pkgutil.iter_modules(translate.__path__):
+                if m.name in ("common", "run_all"):
+                    continue
+                mod = importlib.import_module(f"translate.{m.name}")
+                if hasattr(mod, "generate"):
+                    self.translate(mod.generate)
+
     def build(self, props_modules: list[str], need_driver: bool = True) -> None:
-        """lake build the driver and the property's theorem modules; audit them."""
+        """regenerate Generated/*.lean from /repo, lake build the driver and the property's theorem
+        modules; audit them."""
+        self._translate_all()
         with LakeLock():
             if need_driver:
                 rc, out = _sh(["lake", "build", "driver"], cwd=LEAN_DIR)
